@@ -61,7 +61,7 @@ POLYGAMMA_M = [0, 1, 2, 3]
 
 def _points(name, dom, rng, tier):
     """(point, class) list: random + hostile points of the declared domain"""
-    k = 3 if tier == 'quick' else 8
+    k = 3 if tier == 'quick' else 25
     pts = []
     if dom == 'R':
         pts += [(float(v), 'random') for v in rng.normal(size=k) * 1.5]
